@@ -170,7 +170,7 @@ def run_case(prog, style: str, rseed: int, bindings, specs=None, use_reference=F
     return out
 
 
-def run_history(prog, style: str, rseed: int, bindings, n_builds: int = 3):
+def run_history(prog, style: str, rseed: int, bindings, n_builds: int = 3, collect=None):
     """Several builds over the SAME Python objects: the program is written once, then `spox.build` is
     called repeatedly with other requests — more outputs placed first (shifts the per-operator name
     counters), a subset, other closed values only; input names permuted among same-typed arguments or
@@ -263,6 +263,26 @@ def run_history(prog, style: str, rseed: int, bindings, n_builds: int = 3):
                 d = differs(prog, g, want[out_names.index(nm)])
                 if d:
                     return ("wrong-value", f"{tag}: output {nm} on binding {bi}: onnxruntime vs dataflow: {d[:160]}")
+        if collect is not None:
+            # round 10: the emission of THIS build (other request over the same objects), read from its ModelProto
+            # after renaming the caller's names back to in<id> / out<position in this request>
+            import time as _tm
+
+            _t1 = _tm.time()
+            try:
+                from harness import lib_request as LR
+
+                ren = {name_of[a]: f"in{a}" for a in margs}
+                ren.update({nm: f"out{j}" for j, nm in enumerate(out_names)})
+                m2 = LR.rename_model(model, ren)
+                em_h, pr_h = L.extract_emission(sub, m2)
+                collect.append({"step": step, "kind": kind, "scheme": scheme, "sub": sub, "em": em_h, "problems": pr_h,
+                                "args": [int(i.name[2:]) for i in m2.graph.input],
+                                "res": [sub["outputs"][int(o.name[3:])] for o in m2.graph.output]})
+            except Exception as e:  # noqa: BLE001
+                collect.append({"step": step, "kind": kind, "scheme": scheme, "sub": sub, "em": None,
+                                "problems": [f"{type(e).__name__}: {e}"]})
+            collect[-1]["ms"] = (_tm.time() - _t1) * 1000
     return None
 
 
@@ -859,11 +879,50 @@ def _search(ck: core.Check):
         lean_reqs[-1]["allArgs"] = [idmap[a] for a in full]
         lean_used.append(([idmap[a] for a in full if a in used], caller_args is not None))
         if also_abstract:  # and in the abstract numbering: same values (renaming theorem)
+            try:  # round 10: the executable hypotheses of needed_part_decides_values_checked, abstract -> as created
+                from harness import lib_request as LR
+
+                embed_reqs.append(LR.embed_request(prog, prog_c, idmap, want_res, arg_ids))
+                embed_meta.append(meta + (len(prog["nodes"]) - len(prog_c["nodes"]),))
+            except Exception as e:  # noqa: BLE001
+                ck.broken("correspondence", "C01 embed request", f"{type(e).__name__}: {e}")
             lean_reqs.append(L.lean_request(prog, em, vals, sd, arg_ids, want_res))
             lean_meta.append(meta + ("abstract-order",))
             lean_reqs[-1]["allArgs"] = full
             lean_used.append(([a for a in full if a in used], caller_args is not None))
 
+    hist_ids = [0]
+    embed_reqs: list = []
+    embed_meta: list = []
+
+    def queue_history(prog, hcol, meta):
+        """Round 10 (tie of `other_request_same_values` / `more_outputs_irrelevant`): every build of a history is
+        another request over the same program; its emission goes through wfCheck / validG / evalG-vs-denoteG against
+        ITS request, and — all builds of one history being fed the same (input, value) pairs, each in its own input
+        order — an output two builds share must get the same value from both emissions."""
+        hist_ids[0] += 1
+        sd = rng.randrange(1, 1000)
+        value_of = [{a: rng.randrange(P) for a in L.main_args(prog)} for _ in range(2)]
+        for h in hcol:
+            stats["history_builds"] += 1
+            hist_kinds[f"{h['kind']}/{h['scheme']}"] += 1
+            if h["em"] is None or h["problems"]:
+                nonlocal_broken[0] += 1
+                if nonlocal_broken[0] <= 3:
+                    ck.broken("correspondence", "C01 emission extraction (history build)",
+                              f"{meta[3]} style={meta[1]} rseed={meta[2]} step={h['step']} ({h['kind']}, {h['scheme']}): {h['problems'][:3]}")
+                continue
+            sub = h["sub"]
+            vals = [[vo[a] for a in h["args"]] for vo in value_of]
+            lean_reqs.append(L.lean_request(sub, h["em"], vals, sd, h["args"], h["res"]))
+            lean_reqs[-1]["allArgs"] = list(h["args"])
+            used = set(L.used_args(sub))
+            lean_used.append(([a for a in h["args"] if a in used], False))
+            lean_meta.append(meta + ("history", hist_ids[0], h["step"], [tuple(r) for r in h["res"]],
+                                     h["args"] != sorted(h["args"])))
+
+    nonlocal_broken = [0]
+    hist_kinds = collections.Counter()
     lean_used: list[list[int]] = []
     read_profile = collections.Counter()
     hist_dims = collections.Counter()
@@ -935,7 +994,11 @@ def _search(ck: core.Check):
                 j_case(dict(case_doc(prog, style, rseed, bindings), history=True))
                 j_stage("construct")
                 try:
-                    hf = run_history(prog, style, rseed, bindings)
+                    hcol: list = []
+                    hf = run_history(prog, style, rseed, bindings, collect=hcol)
+                    if not hf:
+                        queue_history(prog, hcol, (pi, style, rseed, origin))
+                    stats["round10_history_tie_ms"] += int(sum(h.get("ms", 0) for h in hcol))
                 except Exception as e:  # noqa: BLE001
                     hf = None
                     stats["harness_errors"] += 1
@@ -1154,6 +1217,7 @@ def _search(ck: core.Check):
     if outs and len(outs) != len(lean_reqs):
         ck.broken("correspondence", "C01 driver", f"{len(outs)} answers for {len(lean_reqs)} requests")
     prev = None
+    hist_vals: dict = {}
     for o, meta, req, (want_used, is_drop) in zip(outs, lean_meta, lean_reqs, lean_used):
         tag = None
         if "error" in o:
@@ -1186,7 +1250,37 @@ def _search(ck: core.Check):
                     mism["creation-order-vs-abstract-order-values-differ"] += 1
                     ck.broken("correspondence", "C01 renaming: values differ between creation-order and abstract numbering",
                               f"program #{meta[0]} style={meta[1]} rseed={meta[2]}")
+            if meta[4] == "history":
+                stats["history_emissions_validated"] += 1
+                stats["history_builds_inputs_in_another_order"] += int(meta[8])
+                for t, ref in enumerate(meta[7]):
+                    got = [r["eval"][t] if r["eval"] is not None and t < len(r["eval"]) else None for r in o["runs"]]
+                    first = hist_vals.setdefault((meta[5], ref), got)
+                    if first is not got:
+                        stats["history_shared_outputs_compared"] += 1
+                        if first != got:
+                            mism["history: an output shared by two builds gets different values"] += 1
+                            ck.broken("correspondence", "C01 other_request_same_values: a shared output differs between two builds of a history",
+                                      f"program #{meta[0]} ({meta[3]}) style={meta[1]} rseed={meta[2]} step={meta[6]} output={ref}: {first} vs {got}")
         prev = (o, meta)
+
+    # --- round 10: abstract program -> program as created: hypotheses of needed_part_decides_values_checked
+    try:
+        eouts = ck.driver().ask_many("C01", embed_reqs) if embed_reqs else []
+    except Exception as e:  # noqa: BLE001
+        ck.broken("correspondence", "C01 driver (embed)", str(e)[:300])
+        eouts = []
+    for o, meta in zip(eouts, embed_meta):
+        bad = [k_ for k_ in ("wf", "wf2", "sigmaOk", "embeds", "mainMapped") if not o.get(k_)]
+        if "error" in o or bad:
+            mism["embed: " + ",".join(bad or ["driver-error"])] += 1
+            if sum(v_ for k_, v_ in mism.items() if k_.startswith("embed")) <= 2:
+                ck.broken("correspondence", "C01 needed_part_decides_values: hypotheses do not hold between the abstract program and the program as created",
+                          f"program #{meta[0]} ({meta[3]}) style={meta[1]} rseed={meta[2]} answer={json.dumps(o)[:300]}")
+        else:
+            stats["embeddings_checked"] += 1
+            stats["embeddings_with_nodes_never_created"] += int(meta[4] > 0)
+            stats["needed_nodes_embedded"] += int(o.get("needed", 0))
 
     # --- bridge: the Builder algorithm model on the same programs (tie for Props/C01Build.lean)
     try:
@@ -1326,6 +1420,15 @@ def _search(ck: core.Check):
                 "unrequested_constructions": stats["unrequested_constructions"],
                 "deep_programs_built_and_run": stats["deep_programs_built_and_run"],
                 "multi_build_histories_over_the_same_objects": stats["histories"],
+                "round10_history_builds": stats["history_builds"],
+                "round10_history_build_kinds (request/input scheme)": dict(hist_kinds),
+                "round10_history_emissions_validated_against_their_request": stats["history_emissions_validated"],
+                "round10_history_builds_with_inputs_in_another_order": stats["history_builds_inputs_in_another_order"],
+                "round10_outputs_shared_by_two_builds_compared": stats["history_shared_outputs_compared"],
+                "round10_embeddings_abstract_into_created_checked": stats["embeddings_checked"],
+                "round10_embeddings_where_some_abstract_node_was_never_created": stats["embeddings_with_nodes_never_created"],
+                "round10_needed_nodes_embedded": stats["needed_nodes_embedded"],
+                "round10_history_tie_cost_ms (rename + extraction in the child)": stats["round10_history_tie_ms"],
                 "values_created_inside_callbacks": stats["created_inside_callbacks"],
                 "created_in_callback_emitted_further_out": stats["created_in_callback_emitted_further_out"],
                 "created_outside_emitted_inside_body": stats["created_outside_emitted_inside_body"],
